@@ -496,6 +496,8 @@ pub fn run(seed: u64, count: usize, max_n: usize, mode: &str, out: &mut impl Wri
                 if rng.chance(1, 12) { cur = (0..rng.range(4, 12)).map(|_| rng.below(4 * n + 8)).collect(); }
                 else if rng.chance(1, 2) { let k = rng.below(cur.len().max(1)); if !cur.is_empty() { cur[k] = rng.below(4 * n + 8); } }
             }
+            // successors must be nodes: pad with empty lists
+            while g.len() < 4 * n + 8 { g.push(Vec::new()); }
             let mut c = Conf::random(&mut rng, n);
             c.w = rng.pick(&[1, 2, 3, 7, 9]);
             c.mr = rng.pick(&[0, 1, 2, 3, 5, usize::MAX]);
